@@ -10,6 +10,14 @@ import json, os, shutil, subprocess, sys, glob, re
 prop, k = sys.argv[1], sys.argv[2]
 keep = '--keep' in sys.argv
 src = f'/tmp/wt/{prop}/seed{k}'
+stored = None
+if '--stored' in sys.argv:
+    # re-confirm a kept change from /verif/seeded/<PROP>-<k>/ (e.g. after a fix: commit changed the code it touches);
+    # the directory name the demonstration expects (seed<j>) is read from its command
+    stored = f'/verif/seeded/{prop}-{k}'
+    src = stored
+    m = re.search(r'seed(\d+)', json.load(open(src + '/meta.json')).get('demo_cmd', ''))
+    if m: k = m.group(1)
 env = dict(os.environ, GOFLAGS='-mod=mod', GOPROXY='off', GOSUMDB='off', GOTOOLCHAIN='local')
 def run(cmd, cwd=None, timeout=900):
     r = subprocess.run(cmd, shell=True, cwd=cwd, env=env, capture_output=True, text=True, timeout=timeout)
@@ -60,7 +68,11 @@ finally:
 res['caught_by'] = caught
 res['target_check_fires'] = prop in caught
 print(json.dumps(res, indent=1))
-if keep:
+if keep and stored:
+    meta['confirmed'] = {x: res.get(x) for x in ('applies', 'builds', 'suite_passes_with_change', 'demo_fails_with_change', 'demo_passes_without_change')}
+    meta['caught_by'] = caught
+    json.dump(meta, open(stored + '/meta.json', 'w'), indent=1)
+elif keep:
     d = f'/verif/seeded/{prop}-{int(k) + int(os.environ.get("SEED_STORE_OFFSET", "0"))}'
     os.makedirs(d, exist_ok=True)
     for f in glob.glob(src + '/*'):
